@@ -127,7 +127,7 @@ Ltac step_cases o :=
   unfold step_st, step; destruct o; cbn [fst fold_left];
   unfold mint_apply, cert_apply, wd_apply, vote_apply, prop_apply, apply_res;
   repeat match goal with |- context [match ?r with Ok _ => _ | Err => _ | Panic => _ | OutOfFuel => _ end] => destruct r end;
-  cbn [fst t_inputs t_collateral t_mint t_certs t_wdrl t_votes t_props t_mint_amt flat_map app apply_res fold_left].
+  cbn [fst t_inputs t_collateral t_mint t_certs t_wdrl t_votes t_props t_mint_amt t_hash flat_map app apply_res fold_left].
 
 Lemma proj_inputs ops : forall st, t_inputs (fold_left step_st ops st) = fold_left ib_step (ops_in ops) (t_inputs st).
 Proof.
